@@ -51,6 +51,25 @@ func NewChildEnvironment(parent *Environment) *Environment {
 	}
 }
 
+// Snapshot returns a copy of the environment chain: every scope's bindings are
+// copied (the bound values themselves are shared). The copy can be used from
+// another goroutine while the original scopes keep being declared into and
+// assigned to, which is what an async block needs: it sees the variables as
+// they were when it was spawned, like a compiled async block does.
+func (e *Environment) Snapshot() *Environment {
+	if e == nil {
+		return nil
+	}
+	c := &Environment{
+		vars:   make(map[string]binding, len(e.vars)),
+		parent: e.parent.Snapshot(),
+	}
+	for name, b := range e.vars {
+		c.vars[name] = b
+	}
+	return c
+}
+
 // Define adds a new variable to the current environment as a user-declared
 // binding. For bindings that originate from the runtime (e.g. path or query
 // parameters), use DefineWithSource so diagnostics can report the origin.
